@@ -911,51 +911,113 @@ func c02Fall(r *Run, npkg *packages.Package) {
 		return false
 	}
 	n := 0
-	var walk func(list []ast.Stmt, inLoop bool)
-	var walkStmt func(st ast.Stmt, inLoop bool)
-	walk = func(list []ast.Stmt, inLoop bool) {
+	key := funcKey(npkg, fd) + "#case-block-evaluation"
+	// helpers of the package that GetValue delegates to are walked with the loop state of their call site
+	visiting := map[*ast.FuncDecl]bool{fd: true}
+	helperOf := func(c *ast.CallExpr) *ast.FuncDecl {
+		fn := calleeFunc(info, c)
+		if fn == nil || fn.Pkg() != npkg.Types {
+			return nil
+		}
+		hd := declOf(npkg, fn)
+		if hd == nil || hd.Body == nil {
+			return nil
+		}
+		return hd
+	}
+	var reaches func(hd *ast.FuncDecl, depth int) bool
+	reachMemo := map[*ast.FuncDecl]bool{}
+	reaches = func(hd *ast.FuncDecl, depth int) bool {
+		if v, ok := reachMemo[hd]; ok {
+			return v
+		}
+		if depth > 3 {
+			return false
+		}
+		reachMemo[hd] = false
+		found := false
+		ast.Inspect(hd.Body, func(m ast.Node) bool {
+			if c, ok := m.(*ast.CallExpr); ok && !found {
+				if isCaseEval(c) {
+					found = true
+				} else if h := helperOf(c); h != nil && h != hd && reaches(h, depth+1) {
+					found = true
+				}
+			}
+			return !found
+		})
+		reachMemo[hd] = found
+		return found
+	}
+	var walk func(list []ast.Stmt, inLoop bool) bool
+	var walkStmt func(st ast.Stmt, inLoop bool) bool
+	// walk reports whether an evaluation in the list relied on the loop state inherited from the caller
+	walk = func(list []ast.Stmt, inLoop bool) bool {
+		flat := false
 		for i, st := range list {
 			has := false
+			var helpers []*ast.FuncDecl
 			ast.Inspect(st, func(m ast.Node) bool {
 				switch x := m.(type) {
 				case *ast.BlockStmt:
 					return false // nested blocks are judged on their own
+				case *ast.FuncLit:
+					return false
 				case *ast.CallExpr:
 					if isCaseEval(x) {
 						has = true
+					} else if h := helperOf(x); h != nil && !visiting[h] && reaches(h, 0) {
+						helpers = append(helpers, h)
 					}
 				}
 				return true
 			})
+			if _, isBlockLike := st.(*ast.BlockStmt); !isBlockLike {
+				for _, h := range helpers {
+					visiting[h] = true
+					if walk(h.Body.List, inLoop) {
+						has = true // the helper evaluates the block without a loop of its own: judged at this call
+					}
+					delete(visiting, h)
+				}
+			}
 			if _, isBlockLike := st.(*ast.BlockStmt); !isBlockLike && has {
 				n++
-				key := funcKey(npkg, fd) + "#case-block-evaluation"
 				uncond := false
 				for _, later := range list[i+1:] {
 					if _, ok := later.(*ast.ReturnStmt); ok {
 						uncond = true
 					}
 				}
+				_, isRet := st.(*ast.ReturnStmt)
 				switch {
-				case !inLoop:
-					r.bad(key, st.Pos(), "the statements of the matched case are evaluated outside any loop over the cases: a case without break cannot continue into the next one")
 				case uncond:
 					r.bad(key, st.Pos(), "the evaluation of a case block is followed by an unconditional return: a case that ends without break leaves the switch instead of falling through")
+				case isRet && len(visiting) > 1:
+					flat = true // a helper that hands the block's result back: its caller decides what follows
+				case !inLoop && len(visiting) > 1:
+					flat = true
+				case !inLoop:
+					r.bad(key, st.Pos(), "the statements of the matched case are evaluated outside any loop over the cases: a case without break cannot continue into the next one")
 				default:
 					r.ok(key, st.Pos(), "a case block that ends normally is followed by the next iteration over the cases")
 				}
 			}
-			walkStmt(st, inLoop)
+			if walkStmt(st, inLoop) {
+				flat = true
+			}
 		}
+		return flat
 	}
-	walkStmt = func(st ast.Stmt, inLoop bool) {
+	walkStmt = func(st ast.Stmt, inLoop bool) bool {
+		flat := false
 		switch x := st.(type) {
 		case *ast.BlockStmt:
-			walk(x.List, inLoop)
+			flat = walk(x.List, inLoop)
 		case *ast.IfStmt:
-			walk(x.Body.List, inLoop)
-			if x.Else != nil {
-				walkStmt(x.Else, inLoop)
+			flat = walk(x.Body.List, inLoop)
+			if x.Else != nil && walkStmt(x.Else, inLoop) {
+				flat = true
 			}
 		case *ast.ForStmt:
 			walk(x.Body.List, true)
@@ -963,15 +1025,20 @@ func c02Fall(r *Run, npkg *packages.Package) {
 			walk(x.Body.List, true)
 		case *ast.SwitchStmt:
 			for _, cc := range x.Body.List {
-				walk(cc.(*ast.CaseClause).Body, inLoop)
+				if walk(cc.(*ast.CaseClause).Body, inLoop) {
+					flat = true
+				}
 			}
 		case *ast.TypeSwitchStmt:
 			for _, cc := range x.Body.List {
-				walk(cc.(*ast.CaseClause).Body, inLoop)
+				if walk(cc.(*ast.CaseClause).Body, inLoop) {
+					flat = true
+				}
 			}
 		case *ast.LabeledStmt:
-			walkStmt(x.Stmt, inLoop)
+			flat = walkStmt(x.Stmt, inLoop)
 		}
+		return flat
 	}
 	walk(fd.Body.List, false)
 	if n == 0 {
